@@ -49,6 +49,14 @@ def _solve_worker(job):
     return r
 
 
+def _retry_worker(job):
+    from pyvc import solve
+    r = solve.solve_retry((job["name"], job["smt2"], job["cover"], job["seed"], job["thorough"], job["scoped"]))
+    for k in ("kind", "lineno", "note", "fn"):
+        r[k] = job[k]
+    return r
+
+
 def run_property(pid, tier, seed):
     from pyvc import driver, report
     t0 = time.time()
@@ -90,6 +98,14 @@ def run_property(pid, tier, seed):
         # slow obligations first would be ideal; keep submission order but small chunks
         with ctx.Pool(16) as pool:
             results = pool.map(_solve_worker, jobs, chunksize=1)
+        # second chance for undecided obligations: few processes, long budgets, several seeds
+        idx = [i for i, r in enumerate(results) if not r["cover"] and r["verdict"] not in ("proved", "refuted")]
+        if idx:
+            with ctx.Pool(min(4, len(idx))) as pool:
+                again = pool.map(_retry_worker, [jobs[i] for i in idx], chunksize=1)
+            for i, r2 in zip(idx, again):
+                r2["backends"] = {**results[i]["backends"], **r2["backends"]}
+                results[i] = r2
     bounded = []
     for b in spec.get("bounded", []):
         try:
